@@ -204,3 +204,38 @@ func Harness_C11_rsa() {
 func Harness_C11_shape() {
 	verifDecryptTotal(verifProfile{algs: []int{0, 5}, oddAlgs: true, small: true, depth: verifParam("depth", 1)})
 }
+
+
+// Harness_C11_padding: a cipher value that decrypts (under the right key) to arbitrary blocks - so the
+// padding byte the decrypter sees is arbitrary - yields plaintext or an error, never a panic, and when it
+// yields plaintext the plaintext is the decrypted text minus a padding of 1..block-size bytes.
+func Harness_C11_padding() {
+	alg := verifChoose("alg", 4)
+	keySizes := []int{16, 24, 32, 24}
+	bs := 16
+	if alg == 3 {
+		bs = 8
+	}
+	key := verifNondetBytes("key", keySizes[alg])
+	iv := verifNondetBytes("iv", bs)
+	nblocks := 1 + verifChoose("nblocks", verifParam("blocks.max", 2))
+	pt := verifNondetBytes("pt", nblocks*bs)
+	cv := verifCBCEncrypt(alg, key, iv, pt)
+	el := etree.NewElement("xenc:EncryptedData")
+	el.CreateElement("xenc:EncryptionMethod").CreateAttr("Algorithm", verifAlgorithms[alg])
+	el.CreateElement("xenc:CipherData").CreateElement("xenc:CipherValue").SetText(base64.StdEncoding.EncodeToString(cv))
+	out, err := Decrypt(key, el)
+	verifReach("returned")
+	if err != nil {
+		verifReach("rejected")
+		return
+	}
+	verifReach("decrypted")
+	pad := int(pt[len(pt)-1])
+	verifAssert(pad >= 1, "C11/padding/minimum-padding")
+	verifAssert(pad <= len(pt), "C11/padding/padding-within-plaintext")
+	verifAssert(len(out) == len(pt)-pad, "C11/padding/removes-exactly-the-padding")
+	for i := range out {
+		verifAssert(out[i] == pt[i], "C11/padding/plaintext-is-the-decrypted-prefix")
+	}
+}
